@@ -24,6 +24,7 @@ import validenc
 import vlib
 import yanggen
 from lyxlib import PARSE_ONLY, PARSE_STRICT, PARSE_NO_STATE, VAL_NO_STATE, VAL_MULTI, NEWPATH_UPDATE
+PARSE_NO_NEW = 0x1000000
 from props.comps import Comp
 from props.oracles import Oracle, crashed, creation_items, gen_case, node_path, quote_pred, walk_paths
 from vlib import hexs
@@ -990,9 +991,36 @@ class ValidModel(Comp):
                     cmds.append((rng.choice(["move", "move", "dupins"]), "t0", hexs(src), hexs(dst), "s"))
         return cmds
 
+    def additions(self, rng, m, ig, f):
+        """commands that add nodes to the tree of f: duplicates and fresh nodes by lyd_new_term / lyd_new_list2, nodes of
+        another instance by lyd_new_path, duplicate + insert, a changed value"""
+        cmds = []
+        for _ in range(rng.choice([1, 1, 2, 3])):
+            r = rng.random()
+            if r < 0.6:
+                h = history_case(rng, m, ig, f)
+                if h:
+                    c = h.split("\t")[5].split(" ")      # the edit command of the first copy
+                    cmds.append(tuple([c[0], "t0"] + c[2:]))
+            else:
+                cmds += [c for c in self.edits(rng, m, ig, f) if c[0] in ("newpath", "dupins", "chgpath")][:1]
+        return cmds
+
     def gen(self, rng, tier, scale=1.0):
         pre = []
         for i in range(self.n(tier, 2500, 40000, scale)):
+            if i % 12 in (1, 5, 9):
+                # a history: the valid instance parsed WITHOUT the new flags (LYD_PARSE_NO_NEW: an already validated tree
+                # without implicit nodes), nodes added through the API (flagged new), then validation
+                m, ig = valid_case(rng, userord=(i % 3 == 0), state=(i % 4 != 1))
+                f = valid_instance(rng, m, ig)
+                if f is None:
+                    continue
+                cmds = [("mod", hexs(m.yang())), ("parse", "t0", "x", PARSE_ONLY | PARSE_STRICT | PARSE_NO_NEW, 0, hexs(yanggen.to_xml(f)))]
+                cmds += self.additions(rng, m, ig, f)
+                cmds += [("dump", "t0", 1), ("val", "t0", rng.choice([0, 0, VAL_MULTI]), "m")]
+                pre.append((m, cmds, {"*"}))
+                continue
             if i % 12 == 10:
                 m, g = lead_default_family(rng)
                 ig = yanggen.InstGen(rng, meta_prob=0.0)
@@ -1025,7 +1053,9 @@ class ValidModel(Comp):
             if data is None:
                 fmt, data = "x", yanggen.to_xml(g)
             cmds = [("mod", hexs(m.yang())), ("parse", "t0", fmt, PARSE_ONLY | PARSE_STRICT, 0, hexs(data)), ("dump", "t0", 1),
-                    ("val", "t0", 0, "m")]
+                    ("val", "t0", 0, "m"),
+                    # the same tree with LYD_VALIDATE_MULTI_ERROR: the last logged error is the last one of impl_validate_multi
+                    ("parse", "t1", fmt, PARSE_ONLY | PARSE_STRICT, 0, hexs(data)), ("val", "t1", VAL_MULTI, "m")]
             if not exp and rng.random() < 0.6:
                 cmds += self.edits(rng, m, ig, f) + [("dump", "t0", 1), ("val", "t0", 0, "m"), ("dump", "t0", 1)]
             pre.append((m, cmds, exp))
@@ -1036,7 +1066,7 @@ class ValidModel(Comp):
             if len(r) != len(cmds) or r[0] != "0" or r[1] != "0":
                 continue                    # module or document rejected by the parser: not a case for the model
             dumps = [x for c, x in zip(cmds, r) if c[0] == "dump"]
-            fields = validenc.fields(m) + ["#e " + (",".join(sorted(exp)) or "-")] + \
+            fields = validenc.fields(m) + ["#e " + ("*" if exp == {"*"} else (",".join(sorted(exp)) or "-"))] + \
                 ["#d " + d for d in dumps[:2]] + ["#a " + d for d in dumps[2:]]
             L.append(vline(fields, cmds))
         return L
@@ -1046,7 +1076,8 @@ class ValidModel(Comp):
         """normalised items of an answer"""
         fields = line.split("\t")[1:]
         exp = next(x[3:] for x in fields if x.startswith("#e "))
-        exp = set() if exp == "-" else set(exp.split(","))
+        star = exp == "*"               # no expectation by construction for the first tree (a history)
+        exp = set() if exp in ("-", "*") else set(exp.split(","))
         items = []
         if out.startswith("0 | ") or out.startswith("E") and " | " in out:
             # implementation (the first result is the one of mod)
@@ -1058,25 +1089,37 @@ class ValidModel(Comp):
             for c, x in zip(cmds, r):
                 if c.startswith("val "):
                     cls = vclass(x)
-                    items.append("%s:%d:%s" % (cls, 1 if cls == "0" else 0, ",".join(sorted(exp)) if k == 0 else "*"))
+                    # (multi-error mode: libyang reports the LAST logged error; the model side prints the last error of
+                    #  impl_validate_multi for such a run)
+                    items.append("%s:%d:%s" % (cls, 1 if cls == "0" else 0, ",".join(sorted(exp)) if (k == 0 and not star) else "*"))
                     k += 1
             return items
         its = out.split(" | ")
         after = [x for x in its if x.startswith("A:")]
         for k, it in enumerate([x for x in its if not x.startswith("A:")]):
             p = it.split(":")
-            if len(p) != 5:
+            if len(p) != 6:
                 return ["model:" + out[:100]]
-            v, ok, rules, placed, wf = p
+            v, ok, rules, placed, wf, mlast = p
+            if (mlast == "0") != (v == "0"):
+                return ["theorem-C02_multi_error_verdict-contradicted"]
             cls = sorted({RULE_CLASS[c] for c in rules if c in RULE_CLASS})
             if k == 0 and placed != "1":
                 items.append("not-placed")
             elif wf[0] != "1":
                 items.append("vschema-not-ok")
-            elif k == 0 and wf == "111" and (v == "0") != (ok == "1"):
+            elif k == 0 and wf[0] == "1" and wf[2] == "1" and (v == "0") != (ok == "1"):
                 items.append("theorem-C02_validate_iff_rfc_partial-contradicted")
+            elif wf[0] == "1" and wf[1] == "1" and (v == "0") != (ok == "1"):
+                items.append("theorem-C02_history_iff_rfc_partial-contradicted")
+            elif k == 0 and star:
+                # a history: the verdict; the RFC verdict of the content is what the history theorem speaks about (hist_ok)
+                multi = any(x.startswith("val ") and x.split(" ")[2] == str(VAL_MULTI) for x in fields)
+                items.append("%s:%d:*" % (mlast if multi else v, 1 if v == "0" else 0))
             elif k == 0:
                 items.append("%s:%s:%s" % (v, ok, ",".join(cls)))
+                if any(x.startswith("val t1 %d" % VAL_MULTI) for x in fields):
+                    items.append("%s:%d:*" % (mlast, 1 if v == "0" else 0))
             else:
                 # edited tree: accepted -> the resulting tree must be RFC-valid; rejected -> the tree before must be invalid
                 ra = after[0].split(":")[1] if after else "?"
@@ -1101,7 +1144,7 @@ class ValidModel(Comp):
             pa, pb = a.split(":"), b.split(":")
             if len(pa) != 3 or len(pb) != 3:
                 return None
-            if pa[0] != pb[0] and k < len(raw) and len(raw[k].split(":")) == 5:
+            if pa[0] != pb[0] and k < len(raw) and len(raw[k].split(":")) == 6:
                 # the model of the code and the code disagree: is it the code that departs from the RFC verdict?
                 rb = raw[k].split(":")[1]
                 ra = after[0].split(":")[1] if (k > 0 and after) else rb
@@ -1123,6 +1166,63 @@ class ValidModel(Comp):
                     return (None, "validation rejected (%s) an instance that satisfies every modelled RFC 7950 rule" % pb[0])
             return None
         return None
+
+
+class IdrefModel(Comp):
+    """identityref_check_base / lyplg_type_identity_isderived vs ValidateImpl.idref_check: random acyclic identity
+    hierarchies over two modules, an identityref leaf with 1-3 bases, every identity as the value"""
+    name = "idrefmodel"
+    driver = "t_valid"
+    slice = "valid"
+
+    def gen(self, rng, tier, scale=1.0):
+        L = []
+        for i in range(self.n(tier, 60, 1500, scale)):
+            n = rng.randrange(3, 9)
+            split = rng.randrange(1, n + 1)                     # identities below split live in the imported module
+            edges = sorted({(rng.randrange(0, d), d) for d in range(1, n) for _ in range(rng.choice([0, 1, 1, 2, 3]))})
+            name = lambda k, here: ("mi:" if (k < split and here != "mi") else "") + "i%d" % k      # noqa: E731
+            mi = 'module mi { yang-version 1.1; namespace "urn:verif:mi"; prefix mi;\n'
+            m1 = 'module m1 { yang-version 1.1; namespace "urn:verif:m1"; prefix m1; import mi { prefix mi; }\n'
+            for k in range(n):
+                bases = "".join(" base %s;" % name(b, "mi" if k < split else "m1") for b, d in edges if d == k)
+                if k < split:
+                    mi += "  identity i%d {%s }\n" % (k, bases)
+                else:
+                    m1 += "  identity i%d {%s }\n" % (k, bases)
+            tb = sorted(rng.sample(range(n), min(n, rng.choice([1, 1, 2, 2, 3]))))
+            if rng.random() < 0.6:
+                # bases taken from the ancestors of one identity: some values are derived from all of them
+                anc, todo = set(), [rng.randrange(n)]
+                while todo:
+                    x = todo.pop()
+                    for b, d in edges:
+                        if d == x and b not in anc:
+                            anc.add(b)
+                            todo.append(b)
+                if anc:
+                    tb = sorted(rng.sample(sorted(anc), min(len(anc), rng.choice([1, 2, 2, 3]))))
+            m1 += "  leaf x { type identityref {%s } }\n}\n" % "".join(" base %s;" % name(b, "m1") for b in tb)
+            mi += "}\n"
+            for v in range(n):
+                val = ("mi:i%d" % v) if v < split else "i%d" % v
+                x = '<x xmlns="urn:verif:m1" xmlns:mi="urn:verif:mi">%s</x>' % val
+                spec = "#I %s %s %d" % (",".join("%d>%d" % e for e in edges) or "-", "+".join(str(b) for b in tb), v)
+                cmds = [("mod", hexs(mi), CTX_NO_YANGLIBRARY), ("mod", hexs(m1)), ("parse", "t0", "x", PARSE_STRICT, 0, hexs(x))]
+                L.append(vline([spec], cmds))
+        return L
+
+    def norm(self, line, out):
+        if out.startswith("I:"):
+            return out
+        r = out.split(" | ")
+        if len(r) != 3 or r[0] != "0" or r[1] != "0":
+            return "setup:" + out[:80]
+        c = vclass(r[2])
+        return "I:1" if c == "0" else ("I:0" if c == "type" else "I:" + c)
+
+    def witness(self, line, model_out, impl_out):
+        return (None, "identityref: libyang %s, derived-from-all-bases says %s" % (self.norm(line, impl_out), model_out))
 
 
 def _json_nodes(g):
